@@ -12,7 +12,7 @@
 (*  tumbling carrier: the first n rows form ONE batch holding several        *)
 (*  groups; exactly one result row per distinct key tuple.                   *)
 (***************************************************************************)
-EXTENDS Agg, Json, IOUtils
+EXTENDS Agg, Expr, Json, IOUtils
 
 CONSTANT Dev
 Trace == ndJsonDeserialize(IOEnv.TRACE_FILE)
@@ -51,6 +51,9 @@ ArgVal(arg, row) ==
     \* column handed through the user function vboom, which panics on cfg.poison.v: that row is skipped by this aggregate only
     [] arg.k = "boomcol" -> IF ~Has(row, arg.c) THEN Missing
                             ELSE IF IsNum(row[arg.c]) /\ row[arg.c].v = cfg.poison.v THEN Missing ELSE row[arg.c]
+    \* CASE WHEN <condition> THEN 1 ELSE 0 END as an aggregate argument (C13's carrier "CASE conditions" inside an aggregate): the
+    \* condition (LIKE, IS [NOT] NULL over columns the row may lack) is judged by lib/Expr on this row
+    [] arg.k = "cond" -> IF IsTrue(Eval(arg.e, row)) THEN NumV(Scale) ELSE NumV(0)
     [] arg.k = "star" -> Null
 
 \* parameter handed to Agg!Ok: for first/last value 1 = "an absent input may also count as NULL" (expression / path arguments)
